@@ -32,13 +32,14 @@ type earlyCase struct {
 	Ops     []earlyOp
 }
 
-func earlyProp(c earlyCase) common.Result {
+func earlyProp(c earlyCase) (verdict common.Result) {
 	// replica 2 leads views 1 and 2, replica 1 (the subject) leads view 3 and collects the votes for the block of view 2
 	cl, err := New(Config{N: c.N, Rules: "chainedhotstuff", Crypto: "fast", Batch: 1, Leaders: []int{2, 2, 1, 3, 3, 3}, NoFetch: c.NoFetch})
 	if err != nil {
 		return common.Fail("harness", "cluster: %v", err)
 	}
 	defer cl.Close()
+	defer func() { verdict = cl.Verdict("C09", verdict) }()
 	sub := cl.Stacks[0]
 	q := cl.Quorum()
 	g := hotstuff.GetGenesis()
